@@ -1,5 +1,5 @@
 import SurfModel.Proto
-import SurfModel.Slice
+import SurfModel.SliceChecked
 def main : IO Unit := SurfModel.Proto.serve fun
-  | "c08" :: rest => SurfModel.Slice.handle rest
+  | "c08" :: rest => SurfModel.Slice.handleC rest
   | _ => "bad-op"
